@@ -183,25 +183,29 @@ func (db *DB) Delete(key []byte) {
 }
 
 func (db *DB) Get(key []byte) (kv.Entry, error) {
-	sstables := db.currentSSTables()
-
 	// First try to get from the memtables
 	v, err := db.mtables.Get(key)
 	if err == nil {
 		return v, nil
 	}
 
-	// Then try the SSTables
+	// Then try the SSTables. The level list must be captured after reading the
+	// memtables: a flush moves entries from the memtables into the level list
+	// in one step, so a list captured earlier could miss entries that were
+	// flushed in between.
 	if err == kv.ErrNotFound {
-		return sstables.Get(key)
+		return db.currentSSTables().Get(key)
 	}
 
 	return nil, err
 }
 
 func (db *DB) ScanPrefix(prefix []byte, errOut *error) iter.Seq[kv.Entry] {
+	// Snapshot the memtables before capturing the level list so that entries
+	// flushed in between are found in at least one of them.
+	mtIter := db.mtables.ScanPrefix(prefix, errOut)
 	sstables := db.currentSSTables()
-	iters := []iter.Seq[kv.Entry]{db.mtables.ScanPrefix(prefix, errOut), sstables.ScanPrefix(prefix, errOut)}
+	iters := []iter.Seq[kv.Entry]{mtIter, sstables.ScanPrefix(prefix, errOut)}
 	return kv.MergeEntries(iters)
 }
 
